@@ -41,7 +41,8 @@ REQUIRED = ['ref_codec_rfc_vectors_ok', 'server_mode_case', 'client_mode_case',
             'written_masked_frame', 'written_unmasked_frame', 'peer_close_then_frames_same_read', 'peer_close_then_frames_later_read',
             'write_after_peer_close', 'write_after_local_close', 'frames_after_local_close', 'close_frame_written_by_codec',
             'client_constructor_data', 'two_sockets_interleaved', 'message_after_fragmented_message', 'codec_created_by_dispatcher_handshake', 'codec_created_by_client_handshake', 'frames_in_the_same_read_as_the_101_response',
-            'message_written_under_a_chosen_masking_key', 'big_message_whose_masked_form_begins_with_zero_bytes']
+            'message_written_under_a_chosen_masking_key', 'big_message_whose_masked_form_begins_with_zero_bytes',
+            'several_reads_queued_before_the_first_is_dispatched', 'peer_close_and_later_frames_in_reads_queued_together']
 REQUIRED_OBLIGATIONS = ['DECODE', 'ENCODE', 'PING_PONG', 'CTRL_IN_FRAGMENTED', 'AFTER_CLOSE_DELIVERY', 'AFTER_CLOSE_SEND']
 WORKER_TIMEOUT = {'quick': 300, 'thorough': 1500}
 
@@ -198,6 +199,13 @@ def expand_steps(case, lens):
             while fed[c] < upto:
                 fed[c] = min(fed[c] + k, upto)
                 out.append((si, ['feed', c, fed[c]]))
+        elif st[0] == 'feedq':     # ['feedq', conn, [upto, ...]]: these reads are all queued before the first of them is dispatched
+            c = st[1]
+            for upto in st[2]:
+                upto = min(upto, lens[c])
+                if upto > fed[c]:
+                    out.append((si, ['feed', c, upto]))
+                    fed[c] = upto
         else:
             out.append((si, st))
     return out
@@ -297,7 +305,9 @@ def execute(case, lay):
         try:
             w.settle()
             fed = [c.get('initial', 0) for c in case['conns']]
-            for si, st in expand_steps(case, [len(x[0]) for x in lay]):
+            xsteps = expand_steps(case, [len(x[0]) for x in lay])
+            queued = {i for i, s_ in enumerate(case['steps']) if s_[0] == 'feedq' or (s_[0] == 'feedby' and len(s_) > 4 and s_[4] == 'queued')}
+            for xi, (si, st) in enumerate(xsteps):
                 log.append(('step', si))
                 ci = st[1]
                 if codecs[ci] is None:
@@ -305,7 +315,12 @@ def execute(case, lay):
                 if st[0] == 'feed':
                     chunk = lay[ci][0][fed[ci]:st[2]]
                     fed[ci] = st[2]
-                    w.inject(read(socks[ci], chunk) if server else read(chunk))
+                    ev = read(socks[ci], chunk) if server else read(chunk)
+                    if si in queued and xi + 1 < len(xsteps) and xsteps[xi + 1][0] == si:
+                        # several reads are already queued when the first of them is dispatched (a burst the loop had no time for yet)
+                        w.fire(ev, w.channel)
+                    else:
+                        w.inject(ev)
                 elif st[0] == 'write':
                     typ, data = payload_of(st[2])
                     key = chosen_key(st[3], data) if len(st) > 3 and st[3] is not None else None
@@ -526,7 +541,7 @@ def features(case, lay, tl, obs):
             c['frames_in_the_same_read_as_the_101_response'] += 1
     inside_cut = False
     if len(case['conns']) > 1:
-        order = [st[1] for st in case['steps'] if st[0] in ('feed', 'feedby')]
+        order = [st[1] for st in case['steps'] if st[0] in ('feed', 'feedby', 'feedq')]
         if any(a != b for a, b in zip(order, order[1:])):
             c['two_sockets_interleaved'] += 1
     for ci, conn in enumerate(case['conns']):
@@ -546,6 +561,14 @@ def features(case, lay, tl, obs):
             if f['op'] == R.OP_PONG and f['inside'] is not None:
                 c['pong_inside_fragmented_message'] += 1
         cuts = [off for off, si in t['bounds'] if 0 < off < len(stream)]
+        for si_, st in enumerate(case['steps']):
+            if st[1] == ci and (st[0] == 'feedq' or (st[0] == 'feedby' and len(st) > 4)):
+                mine = [off for off, si in t['bounds'] if si == si_]
+                if len(mine) > 1:
+                    c['several_reads_queued_before_the_first_is_dispatched'] += 1
+                    if t['peer_close'] is not None and t['peer_close_step'] == si_ and any(
+                            f['end'] > mine[0] and f['end'] > frames[t['peer_close']]['end'] and t['done'][i] == si_ for i, f in enumerate(frames)):
+                        c['peer_close_and_later_frames_in_reads_queued_together'] += 1
         steps = [st for st in case['steps'] if st[1] == ci and st[0] == 'feedby' and st[3] == 1]
         if steps:
             c['byte_at_a_time_stream'] += 1
@@ -785,6 +808,14 @@ def corpus():
         cases.append(one(mode, [msg('bin', 5, 1, mask=rm), ['close', b'', rm], msg('bin', 6, 2, mask=rm), msg('text', 2, 2, splits=[1], mask=rm)],
                          [['write', 0, ['bin', 2, 1]], ['feed', 0, len(s)], ['write', 0, ['bin', 3, 1]], ['feed', 0, len(s) + 3], ['feed', 0, ALL], ['write', 0, ['text', 126, 1]]],
                          name='peer-close-later-reads'))
+        full = [msg('bin', 5, 1, mask=rm), ['close', b'', rm], msg('bin', 6, 2, mask=rm), msg('text', 2, 2, splits=[1], mask=rm), ['ping', b'late', rm]]
+        _, fr, _ = layout({'items': full})
+        ends = [f['end'] for f in fr]
+        cases.append(one(mode, full, [['feedq', 0, ends], ['write', 0, ['text', 3, 1]]], name='peer-close-and-later-frames-queued-together'))
+        cases.append(one(mode, full, [['feedq', 0, [ends[1] - 1, ends[1], ends[2] + 1, ALL]]], name='peer-close-completed-among-queued-reads'))
+        cases.append(one(mode, full, [['feed', 0, ends[0]], ['close', 0], ['feedq', 0, ends[1:]]], name='queued-reads-after-local-close'))
+        cases.append(one(mode, [msg('text', 130, 3, splits=[64, 128], ctl=[[0, 'ping', b'in']], mask=rm), msg('bin', 126, 1, mask=rm)], [['feedby', 0, ALL, 7, 'queued']],
+                         name='all-reads-of-a-stream-queued'))
         cases.append(one(mode, [msg('text', 5, 1, mask=rm), msg('text', 7, 3, mask=rm), ['close', b'\x03\xe9', rm], msg('bin', 1, 1, mask=rm)],
                          [['write', 0, ['text', 5, 1]], ['feed', 0, 7 + (4 if rm else 0)], ['close', 0], ['write', 0, ['text', 5, 2]], ['feed', 0, ALL], ['write', 0, ['bin', 5, 2]], ['close', 0]],
                          name='local-close-then-peer-close'))
@@ -901,7 +932,10 @@ def gen_case(rng, big=0.0):
             cuts = gen_cuts(rng, frames, total, style)
             if mode == 'client' and cuts and rng.random() < 0.3:
                 conn['initial'] = cuts.pop(0)
-            feeds.append([['feed', ci, c] for c in cuts] + [['feed', ci, ALL]])
+            if cuts and rng.random() < 0.2:    # a burst: all those reads are queued before the codec sees the first
+                feeds.append([['feedq', ci, cuts + [ALL]]])
+            else:
+                feeds.append([['feed', ci, c] for c in cuts] + [['feed', ci, ALL]])
         conns.append(conn)
     # interleave the per-connection feeds, then sprinkle writes and at most one local close per connection
     steps = []
